@@ -69,7 +69,12 @@ class RemoveRedundant(Case):
         out, key = c.p('out_attrs'), c['key_attr']
         src = c.ghost_out('src', AIT)
         where = c.ghost_out('where', AVI)
-        return RemoveRedundant.facts(out, key, res, src, where, ln(out))
+        fs = RemoveRedundant.facts(out, key, res, src, where, ln(out))
+        if c.proving:
+            c.extra.append(res.t == S.dedup(out.t, key))      # definition of the spec function
+        else:
+            fs.append(('defn', res.t == S.dedup(out.t, key)))
+        return fs
 
 
 class RemoveRedundantNone(Case):
@@ -118,8 +123,13 @@ class AttrsToProject(Case):
 
     def ensures(self, c, res):
         out = c.p('out_attrs')
-        return AttrsToProject.facts(out, c['key_attr'], c['join_attr'], res,
-                                    c.ghost_out('pos', AIT), ln(out))
+        fs = AttrsToProject.facts(out, c['key_attr'], c['join_attr'], res, c.ghost_out('pos', AIT), ln(out))
+        d = res.t == S.proj_attrs(out.t, c['key_attr'], c['join_attr'])
+        if c.proving:
+            c.extra.append(d)
+        else:
+            fs.append(('defn', d))
+        return fs
 
 
 class AttrsToProjectNone(Case):
@@ -128,7 +138,11 @@ class AttrsToProjectNone(Case):
     returns = LV
 
     def ensures(self, c, res):
-        return [('value', z3.And(ln(res) == 2, at(res, 0) == c['key_attr'], at(res, 1) == c['join_attr']))]
+        d = res.t == S.proj_attrs0(c['key_attr'], c['join_attr'])
+        if c.proving:
+            c.extra.append(d)
+        return [('value', z3.And(ln(res) == 2, at(res, 0) == c['key_attr'], at(res, 1) == c['join_attr']))] + \
+               ([] if c.proving else [('defn', d)])
 
 
 register(Q + 'get_attrs_to_project', [AttrsToProject(), AttrsToProjectNone()], props=('C11',))
@@ -284,8 +298,14 @@ def _mk_header_case(l_none, r_none):
 
         def ensures(self, c, res):
             a = OutputHeader._args(c)
-            return _header_spec(a[0], a[1], a[2], a[3], a[4], a[5], res,
-                                0 if l_none else ln(a[2]), 0 if r_none else ln(a[3]))
+            fs = _header_spec(a[0], a[1], a[2], a[3], a[4], a[5], res,
+                              0 if l_none else ln(a[2]), 0 if r_none else ln(a[3]))
+            d = res.t == S.out_header(a[0], a[1], None if l_none else a[2].t, None if r_none else a[3].t, a[4], a[5])
+            if c.proving:
+                c.extra.append(d)          # definition of the spec function
+            else:
+                fs.append(('defn', d))
+            return fs
     k = 0
     if not l_none:
         OutputHeader.loops[str(k)] = LoopSpec(OutputHeader._inv_l)
